@@ -248,6 +248,18 @@ def data_field(v: SPrim, name: str) -> SV:
     raise KeyError(name)
 
 
+def elem_inv_facts(st: St, sq: SSeq) -> St:
+    """the intrinsic invariants of the element type hold of every element of a derived sequence"""
+    j = z3.Int("j!ei")
+    try:
+        inner = value_inv(sq.elem, sq.arr[j])
+    except Exception:
+        inner = []
+    if inner:
+        st = st.fact(z3.ForAll([j], z3.Implies(z3.And(j >= 0, j < sq.n), z3.And(*inner))))
+    return st
+
+
 def seq_setview_facts(st: St, sq: SSeq) -> St:
     """A sequence that enumerates a set (sq.setview) without repetition of membership facts: every element is in
     the set, and every member of the set occurs at some position pos(x) (a fresh function)."""
@@ -306,7 +318,7 @@ def dict_keyseq(st: St, cell: DictCell, name="ks"):
     idx = z3.Function(f"{name}.idx!{S._ctr[0]}", ks, z3.IntSort())
     i, j = z3.Int("i!ks"), z3.Int("j!ks")
     k = z3.Const("k!ks", ks)
-    st = st.fact(n >= 0)
+    st = st.fact(S.seq_norm(n, karr, ks))          # normalised: a plain array constant, usable in triggers
     st = st.fact(z3.ForAll([i], z3.Implies(z3.And(i >= 0, i < n), z3.And(cell.dom[karr[i]], idx(karr[i]) == i))))
     st = st.fact(z3.ForAll([k], z3.Implies(cell.dom[k], z3.And(idx(k) >= 0, idx(k) < n, karr[idx(k)] == k))))
     return st, n, karr
